@@ -37,5 +37,6 @@ type ClassName struct {
 
 // Call the the function with the arguments provided.
 func (f *ClassName) Call(s *slip.Scope, args slip.List, depth int) (result slip.Object) {
+	slip.CheckArgCount(s, depth, f, args, 1, 1)
 	return slip.Symbol(classFromArg0(f, s, args, depth).Name())
 }
